@@ -26,7 +26,7 @@ SpecCell(gg, s, X) == A[gg].tbl[s + 1][X]
 DumpCell(gg, s, X) == Ds[gg].table[s + 1][SymIdx(gg, X)]
 
 GRof(gg) == [nnt |-> Gs[gg].nnt, nt |-> Gs[gg].nt, R |-> A[gg].R, tnames |-> Gs[gg].tnames,
-             ruletext |-> Gs[gg].ruletext, obsT |-> Gs[gg].obsT, obsC |-> Gs[gg].obsC, dflt |-> Gs[gg].dflt]
+             ruletext |-> Gs[gg].ruletext, obsT |-> Gs[gg].obsT, obsC |-> Gs[gg].obsC, dflt |-> Gs[gg].dflt, lexobs |-> Gs[gg].lexobs]
 
 \* reference lexer for grammars whose terms are single characters (host grammars): first listed wins
 RECURSIVE FirstCharTerm(_, _, _)
@@ -73,5 +73,13 @@ LexScanOuter(dsets, bytes, i, p, best) ==
   LET r == LexScan(dsets, bytes, i, p, best, CHUNK) IN
   IF r.done THEN r.best ELSE LexScanOuter(r.ds, bytes, r.i, p, r.best)
 LexRefAt(gg, bytes, p) == LexScanOuter(TLCEval([t \in DOMAIN LexAsts[gg] |-> {LexAsts[gg][t]}]), bytes, p, p, <<-1, 0>>)
-LexDispatch(gg, bytes, p) == IF Gs[gg].lex = "chars" THEN LexChars(gg, bytes, p) ELSE LexRefAt(gg, bytes, p)
+\* C18: the harness' custom lexer answers (index, length) as dictated by the byte it is asked at (harness/rt.hpp
+\* byte_lexer): arbitrary in-range answers, chosen by the input itself
+LexByte(gg, bytes, p) ==
+  LET b == bytes[p + 1]
+      idx == (b - 64) \div 4
+      ln == ((b - 64) % 4) + 1
+  IN IF b < 64 \/ b > 127 \/ idx >= Gs[gg].nt \/ ln > Len(bytes) - p THEN <<-1, 0>> ELSE <<TB + idx, ln>>
+LexDispatch(gg, bytes, p) == IF Gs[gg].lex = "chars" THEN LexChars(gg, bytes, p)
+                             ELSE IF Gs[gg].lex = "byte" THEN LexByte(gg, bytes, p) ELSE LexRefAt(gg, bytes, p)
 =============================================================================
